@@ -21,6 +21,13 @@ COMMON_ASSUMPTIONS = [
 
 PROPS = {
     "S00": {"quick_runs": 2000, "thorough_runs": 20000, "seed": 100001},
+    "C06": {
+        "quick_runs": 6000, "thorough_runs": 400000, "seed": 6000001,
+        "rule": "C06 programs: 2-8 parties x lock/try_lock/try_lock_for/try_lock_until sections (yields, sleeps and migrations "
+                "inside), nested recursive locking, re-lock and foreign-unlock misuse, over pika::mutex, timed_mutex, "
+                "recursive_mutex (tasks) and both spinlocks (tasks and OS threads).",
+        "required_probes": ["timed_lock.true", "timed_lock.false", "misuse.relock", "misuse.foreign_unlock", "recursive.nested", "try_lock.false"],
+    },
     "C08": {
         "quick_runs": 6000, "thorough_runs": 400000, "seed": 8000001,
         "kf_subs": {"kf_timed_os": 48},
